@@ -15,8 +15,8 @@ RULE = (
     "one run = one seeded source from the provenance matrix (nodes lon/lat | xyz | both; face and edge centres none | lon/lat | "
     "xyz | both; longitudes -180..180 | 0..360; unit or scaled xyz; sample SCRIP/MPAS/Exodus/UGRID files) + a seeded order (3-20 "
     "steps) of direct and indirect first accesses of the coordinate properties and normalize_cartesian_coordinates(); after every "
-    "step invariants I1-I5 are evaluated over every coordinate variable present. non-trivial = at least two first accesses of one "
-    "element kind where a representation had to be derived. distinct = different (source class, multiset of (abstract grid "
+    "step invariants I1-I5 are evaluated over every coordinate variable present. non-trivial = at least two steps at which a coordinate "
+    "representation had to be derived (so that the second derivation met the state the first one left). distinct = different (source class, multiset of (abstract grid "
     "state, op class)) fingerprint, i.e. provenance class x order of first accesses."
 )
 ASSUMPTIONS = [
@@ -175,7 +175,7 @@ class Coords(Profile):
             if any(v.startswith(k + "_") and v.split("_")[1] in ("lon", "lat", "x", "y", "z") for v in new):
                 W.first[k] += 1
                 W.fire(f"derived:{k}")
-                if W.first[k] >= 2:
+                if sum(W.first.values()) >= 2:
                     W.cov["nontrivial"] = True
         W.cov["judged"] += 1
         vs = self.invariants(W, i, op)
